@@ -520,7 +520,15 @@ func (e *Enc) wfAssume(st *State, reach string, v Val) {
 	for i := 0; i < len(ls); i++ {
 		l := ls[i]
 		if l.Kind == 'r' {
-			facts = append(facts, app("bvult", v.L[i], alloc))
+			isStr := strings.HasSuffix(l.Path, ".ref") && i+2 < len(ls) && strings.HasSuffix(ls[i+2].Path, ".len") &&
+				!(i+3 < len(ls) && strings.HasSuffix(ls[i+3].Path, ".cap") && strings.TrimSuffix(ls[i+3].Path, ".cap") == strings.TrimSuffix(l.Path, ".ref"))
+			if isStr {
+				// strings are immutable: their storage lies in a region of references disjoint from everything allocated
+				// (and therefore from every slice that can be written through); unsafe conversions are not modelled
+				facts = append(facts, or(eq(v.L[i], c64(0)), and(app("bvuge", v.L[i], strBase), app("bvult", v.L[i], bvLit(bigPow2(63), 64)))))
+			} else {
+				facts = append(facts, app("bvult", v.L[i], alloc))
+			}
 		}
 		if l.Kind == 'L' && strings.HasSuffix(l.Path, ".off") {
 			off, ln := v.L[i], v.L[i+1]
@@ -543,6 +551,8 @@ func (e *Enc) wfAssume(st *State, reach string, v Val) {
 		e.assume(imp(reach, and(facts...)))
 	}
 }
+
+var strBase = bvLit(bigPow2(62), 64)
 
 func (e *Enc) newRef(st *State) string {
 	a := e.get(st, "$alloc", bv64)
